@@ -4,6 +4,68 @@ import Ark.Model.FieldOps
 import Ark.Model.NatSpec
 import Ark.Model.Proto
 /-  Driver dispatch for C01: `<op> <d|t> <N> <p> args…`; elements are raw Montgomery values -/
+/-! ### model additions for the coverage-gap ops of `ff/src/fields/models/fp/mod.rs`
+    (kept here so that the modules depending on `Mont`/`MontOps` are not rebuilt) -/
+namespace Ark.Mont
+
+/-- `Field::inverse_in_place`: `self.inverse().map(|inverse| { *self = inverse; self })` —
+    returns `(returned value, self afterwards)` -/
+def inverseInPlace (c : MontCfg) (a : List Nat) : Option (List Nat) × List Nat :=
+  match inverse c a with
+  | some r => (some r, r)
+  | none => (none, a)
+
+/-- `DivAssign<&Self>`: `*self *= &other.inverse().unwrap()` (every `Div`/`DivAssign` variant ends here) -/
+def div (c : MontCfg) (a b : List Nat) : Outcome (List Nat) :=
+  match inverse c b with
+  | some i => .ok (mul c a i)
+  | none => .panic
+
+/-- `Sum<Self>` / `Sum<&Self>`: `iter.fold(Self::zero(), Add::add)` -/
+def sumIter (c : MontCfg) (xs : List (List Nat)) : List Nat := xs.foldl (add c) (zeros c.n)
+/-- `Product<Self>` / `Product<&Self>`: `iter.fold(Self::one(), Mul::mul)` -/
+def productIter (c : MontCfg) (xs : List (List Nat)) : List Nat := xs.foldl (mul c) c.r
+
+/-- default body of `AdditiveGroup::double_in_place`: `*self += *self` -/
+def groupDoubleDefault (c : MontCfg) (a : List Nat) : List Nat := add c a a
+/-- default body of `AdditiveGroup::neg_in_place`: `*self = -(*self)` -/
+def groupNegDefault (c : MontCfg) (a : List Nat) : List Nat := neg c a
+
+/-- `Zeroize::zeroize`: `self.0.zeroize()` -/
+def zeroize (c : MontCfg) (_a : List Nat) : List Nat := zeros c.n
+
+/-- `BigInt::from_str` of num-bigint 0.4 on the bytes of a string (third-party code, modelled as far
+    as the harness corpus goes): an optional `-` (kept when followed by `+`), then `BigUint::from_str`:
+    an optional `+` (not followed by `+`), a non-empty rest not starting with `_`, underscores
+    skipped, every other byte an ASCII digit -/
+def parseBigUintStr (s : List Nat) : Option Nat :=
+  let s := match s with
+    | 43 :: t => if t.head? == some 43 then s else t
+    | _ => s
+  if s.isEmpty || s.head? == some 95 then none
+  else s.foldl (fun acc ch => match acc with
+    | none => none
+    | some v => if ch == 95 then some v else if 48 ≤ ch ∧ ch ≤ 57 then some (v * 10 + (ch - 48)) else none) (some 0)
+
+def parseBigIntStr (s : List Nat) : Option Int :=
+  match s with
+  | 45 :: t =>
+    if t.head? == some 43 then none        -- "-+…": the `-` stays and is not a digit
+    else (parseBigUintStr t).map (fun v => - (v : Int))
+  | _ => (parseBigUintStr s).map (fun v => (v : Int))
+
+/-- `FromStr for Fp`: parse, reduce with the truncated `%`, add the modulus when negative, `from_bigint` -/
+def fromStr (c : MontCfg) (s : List Nat) : Option (List Nat) :=
+  match parseBigIntStr s with
+  | none => none
+  | some v =>
+    let pv : Int := (value c.p : Nat)
+    let a := Int.tmod v pv
+    let a := if a < 0 then a + pv else a
+    fromBigint c (toLimbs c.n a.toNat)
+
+end Ark.Mont
+
 namespace Ark.DrvC01
 open Ark Ark.Proto Ark.Mont Ark.Spec
 
@@ -124,6 +186,83 @@ def run (cache : Cache) (op : String) (args : List String) (impl : String) : Opt
       let a ← parseHex? a; let _d ← parseHex? d
       let s := hex (toN a)
       out s s
+    -- ---- coverage-gap ops
+    | "invip", [a] =>
+      let a ← parseHex? a
+      let r := Mont.inverseInPlace c (L a)
+      let spec := if a % pv = 0 then "none " ++ hex a
+        else let i := hex (frN (modInv (toN a) pv)); i ++ " " ++ i
+      out (optStr r.1 ++ " " ++ hex (value r.2)) spec
+    | "div", [a, b] =>
+      -- every receiver variant of `Div` / `DivAssign`; division by zero panics (documented)
+      let a ← parseHex? a; let b ← parseHex? b
+      out (outStr (Mont.div c (L a) (L b))) (if b % pv = 0 then "panic" else hex (frN (toN a * modInv (toN b) pv)))
+    | "sum", [l] =>
+      let l ← parseList? l
+      out (hex (value (Mont.sumIter c (l.map L)))) (hex ((l.foldl (· + ·) 0) % pv))
+    | "prod", [l] =>
+      let l ← parseList? l
+      out (hex (value (Mont.productIter c (l.map L)))) (hex (frN ((l.map toN).foldl (· * ·) 1)))
+    | "gdouble", [a] =>
+      let a ← parseHex? a
+      out (hex (value (Mont.groupDoubleDefault c (L a)))) (hex ((2 * a) % pv))
+    | "gneg", [a] =>
+      let a ← parseHex? a
+      out (hex (value (Mont.groupNegDefault c (L a)))) (hex ((pv - a) % pv))
+    | "zeroize", [a] =>
+      let a ← parseHex? a
+      out (hex (value (Mont.zeroize c (L a)))) "0"
+    | "valid", [a] =>
+      let _ ← parseHex? a
+      out "ok" "ok"
+    | "char", [] =>
+      out (hexList c.p) (hexList ((List.range nn).map (fun i => (pv / B ^ i) % B)))
+    | "fromelems", [l] =>
+      let l ← parseList? l
+      out (match l with | [x] => hex x | _ => "none") (if l.length == 1 then hex (l.headD 0) else "none")
+    | "toelems", [a] =>
+      let a ← parseHex? a
+      out (hexList [a]) (hex a)
+    | "fromw", [w, x] =>
+      -- `From<w> for Fp`, w ∈ {u8,…,u128,i8,…,i128,bool}
+      let x ← parseInt? x
+      let (signed, bits) ← match w with
+        | "u8" => some (false, 8) | "u16" => some (false, 16) | "u32" => some (false, 32) | "u64" => some (false, 64)
+        | "u128" => some (false, 128) | "i8" => some (true, 8) | "i16" => some (true, 16) | "i32" => some (true, 32)
+        | "i64" => some (true, 64) | "i128" => some (true, 128) | "bool" => some (false, 1) | _ => none
+      let inRange := if signed then (-(2 ^ (bits - 1) : Int) ≤ x ∧ x < (2 ^ (bits - 1) : Int)) else (0 ≤ x ∧ x < (2 ^ bits : Int))
+      if !inRange then none
+      else
+        let wide := bits == 128
+        let m := if signed then Mont.fromSigned c wide x
+          else if wide then Mont.fromU128 c x.toNat else Mont.fromU64 c x.toNat
+        -- hand-written configurations with more limbs than the modulus needs: `BigInt → Fp` conversion
+        -- `unwrap`s on values ≥ p (DESIGN.md §5 notes; same rule as fromu64 / fromu128 above)
+        let panics := if wide then nn ≥ 3 ∧ !(isZero (c.p.drop 2)) ∧ x.natAbs ≥ pv else nn ≥ 2 ∧ x.natAbs ≥ pv
+        out (outStr m) (if panics then "panic" else hex (frN ((x % (pv : Int)).toNat)))
+    | "fromstrs", [bs] =>
+      -- `FromStr`: documented as "a string of numbers … Does not accept unnecessary leading zeroes or a
+      -- blank string"; spec: `-?(0|[1-9][0-9]*)` ↦ the congruent element, everything else `Err`
+      let bs ← parseList? bs
+      let m := match Mont.fromStr c bs with | some r => hex (value r) | none => "err"
+      let (neg, ds) := match bs with | 45 :: t => (true, t) | _ => (false, bs)
+      let okDigits := !ds.isEmpty && ds.all (fun ch => 48 ≤ ch && ch ≤ 57) && (ds.length == 1 || ds.head? != some 48)
+      let v : Nat := ds.foldl (fun acc ch => acc * 10 + (ch - 48)) 0
+      let r : Int := if neg then - (v : Int) else v
+      if okDigits then out m (hex (frN ((r % (pv : Int)).toNat)))
+      else if impl == "err" then out m "err"
+      else
+        -- a string outside the documented syntax was accepted (the parser is num-bigint's, which also takes
+        -- leading zeros, `+`, `_` separators): the accepted *syntax* is not part of C01's statement; the
+        -- value must still be the congruent element of the liberally read number
+        let (neg2, ds2) := match bs with | 45 :: t => (true, t) | 43 :: t => (false, t) | _ => (false, bs)
+        let ds2 := ds2.filter (· != 95)
+        let lib := !ds2.isEmpty && ds2.all (fun ch => 48 ≤ ch && ch ≤ 57)
+        let v2 : Nat := ds2.foldl (fun acc ch => acc * 10 + (ch - 48)) 0
+        let r2 : Int := if neg2 then - (v2 : Int) else v2
+        if lib && impl == hex (frN ((r2 % (pv : Int)).toNat)) then
+          some (cache, m, "note:FromStr accepts a string the doc comment says it rejects (leading zero / + / _)")
+        else some (cache, m, "bad:want=err")
     | _, _ => none
   | _ => none
 
